@@ -115,6 +115,16 @@ func jailOutside(root string) ([]vt.Ev, error) {
 	return out, nil
 }
 
+func ancestorsOf(p string) []string {
+	var out []string
+	for i := 0; i < len(p); i++ {
+		if p[i] == '/' {
+			out = append(out, p[:i])
+		}
+	}
+	return out
+}
+
 func splitArg(p string) [][]int {
 	p = strings.Trim(path.Clean("/"+p), "/")
 	if p == "" {
@@ -175,7 +185,9 @@ func copyChild(args []string) {
 			FollowLinks: cc.Follow, ModeStr: cc.Sym, IncludePatterns: cc.Inc, ExcludePatterns: cc.Exc,
 			ChangeFunc: func(kind fsutil.ChangeKind, p string, fi os.FileInfo, err error) error {
 				nmu.Lock()
-				notes = append(notes, splitArg(p))
+				if len(notes) < 500 && strings.Count(p, "/") < 12 { // a runaway copy must not make the trace unreadable
+					notes = append(notes, splitArg(p))
+				}
 				nmu.Unlock()
 				return nil
 			}}
@@ -216,7 +228,7 @@ func copyChild(args []string) {
 		}
 		ok, msg := run()
 		ensureRoot()
-		after, err := disk.Snapshot("/dstroot", false)
+		after, afterTrunc, err := disk.SnapshotCapped("/dstroot", false, 400, 10)
 		if err != nil {
 			die(err)
 		}
@@ -230,7 +242,7 @@ func copyChild(args []string) {
 		if ok && cc.Kind != "contain" {
 			ok2, _ = run()
 			ensureRoot()
-			after2, err = disk.Snapshot("/dstroot", false)
+			after2, _, err = disk.SnapshotCapped("/dstroot", false, 400, 10)
 			if err != nil {
 				die(err)
 			}
@@ -265,7 +277,7 @@ func copyChild(args []string) {
 		ev := vt.Ev{"ev": "Copy", "case": cc.Case, "kind": cc.Kind, "origin": cc.Origin, "src": srcSnap.Ev(), "srcTop": srcTop,
 			"before": before.Ev(), "after": after.Ev(), "ok": ok, "err": msg, "notes": notes1,
 			"second":      vt.Ev{"ok": ok2, "after": after2.Ev()},
-			"dstRootGone": rootGone, "outsideBefore": ob, "outsideAfter": oa, "secrets": []string{model.ContentID([]byte(secretA)), model.ContentID([]byte(secretB))},
+			"dstRootGone": rootGone, "afterTruncated": afterTrunc, "outsideBefore": ob, "outsideAfter": oa, "secrets": []string{model.ContentID([]byte(secretA)), model.ContentID([]byte(secretB))},
 			"req": vt.Ev{"sp": sp, "dp": splitArg(cc.DstArg), "slash": strings.HasSuffix(cc.DstArg, "/") && strings.Trim(cc.DstArg, "/") != "",
 				"contents": cc.Contents, "replace": cc.Replace, "uid": cc.Uid, "gid": cc.Gid, "mode": cc.Mode, "sym": cc.Sym, "utime": utimeStr, "wild": wild},
 			"filter": vt.Ev{"on": false}, "input": vt.Opaque(cc)}
@@ -471,6 +483,15 @@ func Copy(c *Ctx) error {
 					}
 				}
 			}
+			// the same shapes with an explicit timestamp and owner (metadata must be applied to the link, never through it)
+			for _, cc := range append([]copyCase{}, cases...) {
+				if cc.Kind == "contain" && cc.Utime == 0 && !cc.Replace {
+					cc.Utime = 1234567890123456789
+					cc.Uid, cc.Gid = 1234, 4321
+					cc.Origin += "/utime+chown"
+					cases = append(cases, cc)
+				}
+			}
 			// '..'-laden path arguments (no symlink needed): each root is the '/' of its side, so '..' stops there
 			for _, sa := range []string{"..", "d/..", "../..", "d/../..", "../f", "d/../f", "/..", "../d", "d/../../d", "./.."} {
 				for _, da := range []string{"/", "..", "../..", "x/..", "../x", "x/../..", "new/../../y", ".", "e", "e/..", "../e/"} {
@@ -553,9 +574,30 @@ func Copy(c *Ctx) error {
 				if len(cc.Inc)+len(cc.Exc) == 0 {
 					cc.Inc = []string{randomPattern(c, t)}
 				}
-				if c.Rand.Intn(4) == 0 {
+				switch c.Rand.Intn(4) {
+				case 0:
 					// populated destination: unrelated entries
 					cc.Dst = model.Tree{{Path: "zz-unrelated", Type: "file", Perm: 0644, Mtime: uniqueMtime(), Data: []byte("u"), Size: 1}}
+				case 1:
+					// populated destination: stale files at the paths of some source files (whatever the filter selects,
+					// an entry at the path of a source file that is NOT selected must stay as it is)
+					have := map[string]bool{}
+					for _, e := range t {
+						if e.Type != "file" || c.Rand.Intn(2) == 0 {
+							continue
+						}
+						for _, a := range ancestorsOf(e.Path) {
+							if !have[a] {
+								have[a] = true
+								cc.Dst = append(cc.Dst, model.Entry{Path: a, Type: "dir", Perm: 0755, Mtime: uniqueMtime()})
+							}
+						}
+						st := newFile(c.Rand, genOpts{})
+						st.Path = e.Path
+						cc.Dst = append(cc.Dst, st)
+					}
+					cc.Dst.Sort()
+					cc.Origin = "random/staleDestination"
 				}
 				cases = append(cases, cc)
 			}
